@@ -24,6 +24,9 @@
    "the argument vector (after the documented quoting rules of the command-line form)"
         -> splitter_refines_reference, splitter_total_on_all_bytes (the loop that used to hang),
            splitter_roundtrip, reference_roundtrip
+           reference_first_word_splits_off (split(w SP l) = w :: split(l) for a first word without quote/space: what lets
+           the harness read split(l) from the argv[1..] of a child started through the public open("./ac " + l) on a tree
+           whose file-local splitter cannot be called)
    "receives exactly the executable, the argument vector and the environment it was given"
         -> launch_argv_exact, launch_argv0_exact, launch_list_exact, launch_cmdline_exact,
            launch_cmdline_total (pure preparation code: arrays handed to execvpe)
@@ -43,6 +46,10 @@
            process_holds_one_descriptor_per_stream, join_returns_kernel_exit_code,
            idle_process_refuses_without_side_effects, idle_close_is_noop, running_process_refuses_second_start,
            failed_wait_can_be_retried.
+           What the property-level reference asks of a refused call (the text is silent on misuse and on errno) is the
+           observation ProcSpec.seen - the call fails (false / -1), nothing changes: process_refines_lifecycle_as_seen,
+           process_step_as_seen, refusal_is_seen_as_failure_without_side_effects; the exact answer RRefused (decided by
+           the object before any system call; errno EINVAL in the code as it is) is a statement about the Model only.
            FULL statement "every descriptor handed to the object is closed exactly once by the time the
            destructor has finished, for every history and every kernel answer" is FALSE of the code:
            process_descriptor_leak_refuted (vfork fails in open: the pipes stay open; waitpid fails in the
@@ -601,3 +608,58 @@ Print Assumptions read_write_without_stream_use_descriptor_zero.
 Example read_write_without_stream_use_descriptor_zero_ex :
   w_log (snd (prun [PRead 64; PWrite 5] pobj0 world0)) = [KRead 0; KWrite 0].
 Proof. vm_compute. reflexivity. Qed.
+
+(* ---------------- E'. what the CALLER sees of a refusal (ProcSpec.seen) ----------------
+   The property text is silent on misuse of a Process object and names no errno.  The reference observation the
+   check's oracle compares is `seen`: a refused call is a FAILED call (false / -1) that changes nothing.  That the
+   object declines before any system call (RRefused; in the code as it is: errno EINVAL) is what the exact theorems
+   above say about the MODEL; it is compared in the model-only section of the correspondence. *)
+Theorem process_refines_lifecycle_as_seen : forall ops, Forall op_ok ops -> all_specified ops LIdle ->
+  seen_all ops (fst (lrun ops LIdle)) = seen_all ops (fst (fst (prun ops pobj0 world0))) /\
+  snd (lrun ops LIdle) = abs (snd (fst (prun ops pobj0 world0))).
+Proof. exact refines_lifecycle_seen. Qed.
+Print Assumptions process_refines_lifecycle_as_seen.
+
+Example process_refines_lifecycle_as_seen_ex :
+  let ops := [ex_open7 (Some 4242); ex_open7 (Some 9); PStart (Some 9); PJoin (Some 768); PJoin (Some 0); PKill (Some 9); PRead2 3 1 5] in
+  Forall op_ok ops /\ all_specified ops LIdle /\
+  fst (fst (prun ops pobj0 world0)) = [RBool true; RRefused; RRefused; RJoin 3; RRefused; RRefused; RRefused] /\
+  seen_all ops (fst (lrun ops LIdle)) = [RBool true; RBool false; RBool false; RJoin 3; RBool false; RBool false; RIo (-1)].
+Proof.
+  cbn zeta. split.
+  - repeat (constructor; [first [apply ex_open7_ok; discriminate | exact I | cbn; discriminate]|]). constructor.
+  - split; [vm_compute; tauto|]. split; vm_compute; reflexivity.
+Qed.
+
+Theorem process_step_as_seen : forall lost o s w, PInv lost s w -> op_ok o -> specified (abs s) o ->
+  seen o (fst (lstep (abs s) o)) = seen o (fst (fst (pstep o s w))) /\
+  snd (lstep (abs s) o) = abs (snd (fst (pstep o s w))).
+Proof. exact pstep_seen. Qed.
+Print Assumptions process_step_as_seen.
+
+Theorem refusal_is_seen_as_failure_without_side_effects : forall lost s w o, PInv lost s w ->
+  (p_pid s = 0 /\ match o with PJoin _ | PKill _ | PRead2 _ _ _ => True | _ => False end) \/
+  (p_pid s <> 0 /\ match o with POpen _ _ _ _ _ | PStart _ => True | _ => False end) ->
+  snd (fst (pstep o s w)) = s /\ snd (pstep o s w) = w /\
+  seen o (fst (fst (pstep o s w))) = match o with PRead2 _ _ _ => RIo (-1) | _ => RBool false end.
+Proof. exact refusal_seen_as_failure. Qed.
+Print Assumptions refusal_is_seen_as_failure_without_side_effects.
+
+Example refusal_is_seen_as_failure_without_side_effects_ex :
+  PInv [] pobj0 world0 /\ p_pid pobj0 = 0 /\
+  pstep (PKill (Some 9)) pobj0 world0 = (RRefused, pobj0, world0) /\ seen (PKill (Some 9)) RRefused = RBool false /\
+  seen (PRead2 3 3 10) RRefused = RIo (-1) /\ seen PIsRunning (RBool false) = RBool false /\ seen (PJoin (Some 0)) (RJoin 3) = RJoin 3.
+Proof. split; [exact pinv_init|]. repeat split; vm_compute; reflexivity. Qed.
+
+(* ---------------- B'. the public seam of the harness ----------------
+   Where Process::Private::splitCommandLine cannot be called (renamed / inlined by a refactoring) the harness starts the
+   helper child through the public open("./ac " + line) and takes the words from the child's argv[1..]; this is the
+   reference fact that makes argv[1..] = split(line): a first word without quote and space characters splits off. *)
+Theorem reference_first_word_splits_off : forall w l, plain w -> split_ref (w ++ ch_space :: l) = w :: split_ref l.
+Proof. exact split_ref_first_word. Qed.
+Print Assumptions reference_first_word_splits_off.
+
+Example reference_first_word_splits_off_ex :
+  plain (B "./ac") /\ split_ref (B "./ac" ++ ch_space :: B " a ""b c"" ") = [B "./ac"; []; B "a"; B "b c"] /\
+  split_ref (B " a ""b c"" ") = [[]; B "a"; B "b c"] /\ split_ref (B "./ac" ++ [ch_space]) = [B "./ac"].
+Proof. split; [repeat constructor; discriminate|]. repeat split; vm_compute; reflexivity. Qed.
